@@ -156,6 +156,10 @@ pub struct World {
     /// wakes owed to children (made ready, wake delayed): (child, cloned waker)
     pub owed: Vec<HeldWaker>,
     pub trash: Vec<Waker>,
+    /// wakers taken out of the pool while they are being invoked from inside a child's drop
+    pub borrowed: Vec<HeldWaker>,
+    /// children invoke wakers from inside their own drop (run-level fault kind)
+    pub wake_in_drop: bool,
     pub up: Upstream,
     pub limit: usize,
     pub poll_no: u64,
@@ -202,7 +206,7 @@ pub struct World {
     pub zst_dropped: i64,
 }
 
-pub const NFAULT: usize = 17;
+pub const NFAULT: usize = 18;
 pub const FAULT_NAMES: [&str; NFAULT] = [
     "spurious_wake",
     "duplicate_wake",
@@ -221,6 +225,7 @@ pub const FAULT_NAMES: [&str; NFAULT] = [
     "upstream_error",
     "refused_push",
     "child_panic",
+    "wake_in_drop",
 ];
 pub const FA_SPURIOUS: usize = 0;
 pub const FA_DUP: usize = 1;
@@ -239,6 +244,7 @@ pub const FA_UP_PENDING: usize = 13;
 pub const FA_UP_ERR: usize = 14;
 pub const FA_REFUSED: usize = 15;
 pub const FA_PANIC: usize = 16;
+pub const FA_WAKE_IN_DROP: usize = 17;
 
 impl World {
     pub fn new() -> World {
@@ -282,6 +288,8 @@ impl World {
             inexact_iter: false,
             src_hints: false,
             src_promise: false,
+            wake_in_drop: false,
+            borrowed: vec![],
             ordered_adapter: false,
             adapter_yielded: 0,
             zst_created: 0,
